@@ -48,6 +48,7 @@ type zzTransport struct {
 	writesAfterClose   int
 	gate               chan struct{} // when non-nil, Write/Writev block until it is closed (stalled sender)
 	buffers            int           // buffers handed to Write/Writev so far
+	accepted           bool          // handed out by a mock acceptor's Accept
 	keepUnits          bool          // record the length of every non-empty buffer handed over (opt-in: it is state)
 	units              []int
 }
